@@ -1,10 +1,64 @@
-(* C03 — the property theorems about the scheduler model, and nothing else. *)
+(* C03 — the property theorems about the scheduler model, and nothing else.
+
+   live_cacheable x :  t_resp x = None /\ t_dnc x = Some false
+   tkey x           :  (t_instance x, t_digest x)   (the action digest incl. instance name) *)
 From VF Require Import Sched.Proofs.
 Open Scope Z_scope.
 
+(* inflight_exact: in every reachable state (all event lists, no hypothesis)
+   the keys of the in-flight map are unique, every entry names an existing
+   task that has no response, is cacheable and has exactly that digest, and
+   every such task is registered under its digest. *)
+Theorem inflight_exact : forall cfg t0 evs,
+  let s := fst (run (init cfg t0) evs) in
+  NoDup (map fst (s_inflight s)) /\
+  (forall k t, aget dkey_eqb k (s_inflight s) = Some t ->
+     exists x, aget Nat.eqb t (s_tasks s) = Some x /\ (t_resp x = None /\ t_dnc x = Some false) /\ (t_instance x, t_digest x) = k) /\
+  (forall t x, aget Nat.eqb t (s_tasks s) = Some x -> (t_resp x = None /\ t_dnc x = Some false) ->
+     aget dkey_eqb (t_instance x, t_digest x) (s_inflight s) = Some t).
+Proof. exact inflight_exact_all. Qed.
+Print Assumptions inflight_exact.
+
+(* hence two distinct live cacheable tasks never have the same digest *)
+Theorem live_cacheable_unique : forall cfg t0 evs t1 t2 x1 x2,
+  let s := fst (run (init cfg t0) evs) in
+  aget Nat.eqb t1 (s_tasks s) = Some x1 -> aget Nat.eqb t2 (s_tasks s) = Some x2 ->
+  live_cacheable x1 -> live_cacheable x2 -> tkey x1 = tkey x2 -> t1 = t2.
+Proof. exact live_cacheable_unique_all. Qed.
+Print Assumptions live_cacheable_unique.
+
+(* A duplicate request while the task is in flight creates no task, leaves
+   the map alone and creates at most one operation (none when its
+   invocation is already attached). *)
+Theorem dup_exec_no_new_task : forall c a s t0,
+  aget dkey_eqb (x_instance a, x_digest a) (s_inflight s) = Some t0 ->
+  s_ntasks (exec_start c a s) = s_ntasks s /\ s_inflight (exec_start c a s) = s_inflight s /\
+  (s_nops (exec_start c a s) = s_nops s \/ s_nops (exec_start c a s) = S (s_nops s)).
+Proof. exact dup_exec_no_new_task. Qed.
+Print Assumptions dup_exec_no_new_task.
+
 (* An Execute request with do_not_cache set never writes the in-flight
-   deduplication map (whatever else its critical section does). *)
+   deduplication map (whatever else its critical section does).  NOTE: it
+   does read it: see docs/areas/Sched-proofs.md. *)
 Theorem exec_start_dnc_keeps_inflight : forall c a s,
   x_dnc a = true -> s_inflight (exec_start c a s) = s_inflight s.
 Proof. exact exec_start_dnc_keeps_inflight. Qed.
 Print Assumptions exec_start_dnc_keeps_inflight.
+
+(* After completion (no live cacheable task with the digest remains) the map
+   has no entry for the digest: the next request is routed and creates a
+   fresh task (PropertiesC05.exec_routes_longest_prefix). *)
+Theorem fresh_after_completion : forall cfg t0 evs k,
+  let s := fst (run (init cfg t0) evs) in
+  (forall t x, aget Nat.eqb t (s_tasks s) = Some x -> live_cacheable x -> tkey x <> k) ->
+  aget dkey_eqb k (s_inflight s) = None.
+Proof. exact fresh_after_completion_all. Qed.
+Print Assumptions fresh_after_completion.
+
+(* Referential integrity used above: in every reachable state the next task
+   index and the next operation index are unused. *)
+Theorem next_indices_fresh : forall cfg t0 evs,
+  let s := fst (run (init cfg t0) evs) in
+  aget Nat.eqb (s_ntasks s) (s_tasks s) = None /\ aget Nat.eqb (s_nops s) (s_ops s) = None.
+Proof. exact next_indices_fresh_all. Qed.
+Print Assumptions next_indices_fresh.
